@@ -59,7 +59,17 @@ def determinism():
         D.log("determinism %s: ok" % pid if ok else "determinism %s: FAILED" % pid)
     D.log("determinism: %d run digests compared across 1/4/16 worker processes and a repeated execution: %s"
           % (total, "identical" if ok else "MISMATCH"))
-    return ok
+    # Miri lane: the same judged cases with the same seed and flags twice give identical output
+    import memdriver as M
+    M.build(ws)
+    outs = []
+    for _ in range(2):
+        p = subprocess.run(M.miri_cmd(ws, ["judge"] + [str(i) for i in (9, 14, 45, 77, 110, 215)]), cwd=ws,
+                           env=M.miri_env(4242, "-Zmiri-preemption-rate=0.3"), stdout=subprocess.PIPE, stderr=subprocess.PIPE, text=True)
+        outs.append((p.returncode, p.stdout))
+    same = outs[0] == outs[1] and outs[0][0] == 0
+    D.log("determinism (Miri lane): two runs of 6 judged cases with seed 4242: %s" % ("identical" if same else "DIFFERENT"))
+    return ok and same
 
 
 def _scratch_worktree(tmp):
@@ -112,7 +122,11 @@ def sensitivity(only=None, with_suite=False):
                                stderr=subprocess.STDOUT, text=True)
             vio = [ln for ln in r.stdout.splitlines() if ln.startswith("VIOLATION property=%s " % pid)]
             verdict = "MISSED (exit %d)" % r.returncode
-            if r.returncode == 1 and vio:
+            if name.startswith("NEG_"):
+                # negative control: a change that does not break the property must not raise an alarm
+                verdict = "detected, replay reproduces (negative control: silent as required)" if r.returncode == 0 and not vio \
+                    else "FALSE ALARM on a negative control (exit %d)" % r.returncode
+            elif r.returncode == 1 and vio:
                 path = vio[0].split("replay=", 1)[1].strip()
                 rp = subprocess.run([os.path.join(D.ROOT, "check"), "replay", path], env=env, stdout=subprocess.PIPE,
                                     stderr=subprocess.STDOUT, text=True)
